@@ -978,14 +978,14 @@ class Object(ObjectAliasMixin):
         }
 
         if full:
-            base.update(
-                {
-                    "path": self.path,
-                    "filepath": self.filepath,
-                    "relative_filepath": self.relative_filepath,
-                    "relative_package_filepath": self.relative_package_filepath,
-                },
-            )
+            base["path"] = self.path
+            # Built-in modules have no file path, and relative paths cannot always be computed
+            # (namespace packages located outside of the current working directory, for example).
+            for key in ("filepath", "relative_filepath", "relative_package_filepath"):
+                try:
+                    base[key] = getattr(self, key)
+                except (BuiltinModuleError, ValueError):
+                    base[key] = None
 
         if self.lineno is not None:
             base["lineno"] = self.lineno
